@@ -45,7 +45,7 @@ REQUIRED = (
     + ["line:comment/#", "line:comment///", "line:label/symbol", "line:label/numeric", "line:directive", "line:label+trailing-comment", "line:directive+trailing-comment",
        "line:directive+trailing-comment-with-comma"]
     + ["file/line:blank-empty", "file/line:blank-whitespace", "file/line:comment/#", "file/line:comment///", "file/line:label/symbol",
-       "file/line:label/numeric", "file/line:directive", "file/final-newline", "file/starts-with-blank", "file/mem:bid", "file/tail:cmt#"]
+       "file/line:label/numeric", "file/line:directive", "file/final-newline", "file/starts-with-blank", "file/line:blank-other-whitespace", "file/mem:bid", "file/tail:cmt#"]
 )
 
 
